@@ -247,6 +247,38 @@ Section Chain.
     - rewrite upd_other in Hb by exact En. apply (HN n b Hb).
   Qed.
 
+  (* the shape of a label with connections (stop labels and access labels): both connections are connections of the
+     data, of the trip named by the label, the boarding one not after the alighting one *)
+  Definition lab_struct (j : jstep) : Prop :=
+    exists b e, js_enter j = Some b /\ js_exit j = Some e /\ js_trip j = Some (c_trip b) /\
+                In b (all_conns d) /\ In e (all_conns d) /\ c_trip e = c_trip b /\ (c_seq b <= c_seq e)%nat.
+  Definition LI (steps : nat -> jstep) : Prop := forall n b, js_enter (steps n) = Some b -> lab_struct (steps n).
+  Definition AI (racc : nat -> option jstep) : Prop := forall n j, racc n = Some j -> lab_struct j.
+
+  Lemma fp_fold_li c e : In c (all_conns d) -> In e (all_conns d) -> c_trip e = c_trip c -> (c_seq c <= c_seq e)%nat ->
+    forall rows taur steps racc, LI steps -> AI racc ->
+    LI (snd (fst (fold_left (rev_fp_step p k c (minw_eff p c) (Some e)) rows (taur, steps, racc)))) /\
+    AI (snd (fold_left (rev_fp_step p k c (minw_eff p c) (Some e)) rows (taur, steps, racc))).
+  Proof.
+    intros Hc He Et Hseq.
+    assert (Hnew : forall r, lab_struct (new_label c (Some e) r)).
+    { intros r. exists c, e. unfold new_label, mk_js. cbn [js_enter js_exit js_trip]. repeat split; assumption. }
+    assert (Hacc : lab_struct (acc_label c (Some e))).
+    { exists c, e. unfold acc_label, mk_js. cbn [js_enter js_exit js_trip]. repeat split; assumption. }
+    induction rows as [|r rows IH]; intros taur steps racc HL HA; cbn [fold_left fst snd]; [split; assumption|].
+    destruct (rev_fp_step_cases p k c (minw_eff p c) (Some e) taur steps racc r)
+      as (t' & s' & a' & E & H1 & H2).
+    rewrite E. apply IH.
+    - destruct H1 as [[E1 E2]|(_ & _ & E1 & E2)]; subst t' s'; [exact HL|].
+      intros n b Hb. destruct (Nat.eq_dec n (fp_node r)) as [En|En].
+      + subst n. rewrite upd_same. apply Hnew.
+      + rewrite upd_other in Hb |- * by exact En. apply (HL n b Hb).
+    - destruct H2 as [E3|(_ & _ & _ & E3)]; subst a'; [exact HA|].
+      intros n j Hj. destruct (Nat.eq_dec n (fp_node r)) as [En|En].
+      + subst n. rewrite upd_same in Hj. inversion Hj; subst j. exact Hacc.
+      + rewrite upd_other in Hj by exact En. apply (HA n j Hj).
+  Qed.
+
   (* what the scan keeps true of the trip overlays (the part of RevInv's invariant the chain needs; no reference
      to the rest of the dataset): the exit of a trip is a connection of that trip whose arrival stop is reached in
      time, and the connections of the trip still to come lie at or before it *)
@@ -254,7 +286,7 @@ Section Chain.
     forall t e, o_exit (ov t) = Some e -> In e (all_conns d) /\ c_trip e = t /\ c_arr e <= taur (c_to e).
 
   Definition SInv (rest : list conn) (st : rstate) : Prop :=
-    XI (r_taur st) (r_ov st) /\ ord (r_ov st) rest /\ NI (r_steps st).
+    XI (r_taur st) (r_ov st) /\ ord (r_ov st) rest /\ NI (r_steps st) /\ LI (r_steps st) /\ AI (r_acc st).
 
   Lemma XI_mono taur taur' ov : (forall x, taur x <= taur' x) -> XI taur ov -> XI taur' ov.
   Proof.
@@ -266,11 +298,11 @@ Section Chain.
     In c (all_conns d) -> Forall (seq_desc c) rest -> SInv (c :: rest) st -> TInv t st ->
     SInv rest (rev_step d p k false st c) /\ TInv (S t) (rev_step d p k false st c).
   Proof.
-    intros Hc Hsorted (HX & HO & HN) (stamp & HT).
+    intros Hc Hsorted (HX & HO & HN & HL & HA) (stamp & HT).
     pose proof (rev_step_spec d p k st c) as S. cbv zeta in S.
-    destruct S as [(E1 & E2 & E3 & _)|(_ & Hq & Eov & Hrest)].
+    destruct S as [(E1 & E2 & E3 & E4)|(_ & Hq & Eov & Hrest)].
     - split.
-      + unfold SInv. rewrite E1, E2, E3. split; [exact HX|]. split; [|exact HN].
+      + unfold SInv. rewrite E1, E2, E3, E4. split; [exact HX|]. split; [|repeat split; assumption].
         intros c' e Hc' He. apply (HO c' e); [right; exact Hc'|exact He].
       + exists stamp. rewrite E1, E2. apply (TI_weaken t); [lia|exact HT].
     - pose proof (ov1_exit_cases p st c Hminw Hq) as Hex.
@@ -288,9 +320,9 @@ Section Chain.
           + rewrite Hex in He. inversion He; subst e.
             rewrite Forall_forall in Hsorted. apply (Hsorted c' Hc'). symmetry. exact Et.
         - rewrite upd_other in He by exact Et. apply (HO c' e); [right; exact Hc'|exact He]. }
-      destruct Hrest as [(E1 & E2 & _)|(_ & e & Ee & Ef)].
+      destruct Hrest as [(E1 & E2 & E4)|(_ & e & Ee & Ef)].
       + split.
-        * unfold SInv. rewrite E1, E2, Eov. split; [exact HX1|]. split; [exact HO1|exact HN].
+        * unfold SInv. rewrite E1, E2, E4, Eov. split; [exact HX1|]. split; [exact HO1|repeat split; assumption].
         * exists stamp. rewrite E1, E2. apply (TI_weaken t); [lia|exact HT].
       + assert (Hovm : o_exit (ovm (c_trip c)) = Some e) by (subst ovm; rewrite upd_same; exact Ee).
         destruct (HX1 _ _ Hovm) as (He & Etrip & Harr).
@@ -310,10 +342,12 @@ Section Chain.
           as (stamp' & HF').
         pose proof (fp_fold_taur_mono c e (rfp_of d (c_from c)) (r_taur st) (r_steps st) (r_acc st)) as M.
         pose proof (fp_fold_ni c e (rfp_of d (c_from c)) Hnodes (r_taur st) (r_steps st) (r_acc st) HN) as HN'.
-        rewrite <- Ef in HF', M, HN'. cbn [fst snd] in HF', M, HN'.
+        pose proof (fp_fold_li c e Hc He Etrip Hseq (rfp_of d (c_from c)) (r_taur st) (r_steps st) (r_acc st) HL HA)
+          as [HL' HA'].
+        rewrite <- Ef in HF', M, HN', HL', HA'. cbn [fst snd] in HF', M, HN', HL', HA'.
         split.
         * unfold SInv. rewrite Eov. split; [apply (XI_mono (r_taur st)); [exact M|exact HX1]|].
-          split; [exact HO1|exact HN'].
+          split; [exact HO1|]. split; [exact HN'|]. split; [exact HL'|exact HA'].
         * exists stamp'. exact (proj1 HF').
   Qed.
 
@@ -378,30 +412,58 @@ End Chain.
 (* ---------------------------------------------------------------------------------------------- *)
 (* 4. the theorem                                                                                   *)
 
-(* the chain invariant holds in the final state of the scan, and every labelled stop is a stop of the data *)
-Lemma rev_scan_tinv_mono d s p acc egr k st :
-  times_monotone d -> walks_nonneg d -> rfp_nodes_known d -> 0 <= q_minw p -> rev_pre d s p acc egr k ->
+(* what the argument needs of the calculator: three fields of RevInv.rev_pre *)
+Record rev_pre_chain (d : data) (s : scenario) (k : calc) : Prop := {
+  rc_set : k_set k = conn_set d s;
+  rc_steps : forall n, js_enter (k_rsteps k n) = None;
+  rc_exit : forall t, o_exit (k_ov k t) = None }.
+
+Lemma rev_pre_chain_of d s p acc egr k : rev_pre d s p acc egr k -> rev_pre_chain d s k.
+Proof.
+  intros Hpre. constructor.
+  - exact (rp_set _ _ _ _ _ _ Hpre).
+  - intros n. rewrite (rp_steps _ _ _ _ _ _ Hpre). apply seed_steps_enter.
+  - exact (rp_exit _ _ _ _ _ _ Hpre).
+Qed.
+
+(* the chain invariant holds in the final state of the scan (either kind: rev_step with all_nodes = false); every
+   labelled stop is a stop of the data; every stop label and every access label has the shape lab_struct *)
+Lemma rev_scan_chain d s p k st :
+  times_monotone d -> walks_nonneg d -> rfp_nodes_known d -> 0 <= q_minw p -> rev_pre_chain d s k ->
   rev_scan d p k false = Ok st ->
-  (exists t stamp, TI t (r_taur st) (r_steps st) stamp) /\ NI d (r_steps st).
+  (exists t stamp, TI t (r_taur st) (r_steps st) stamp) /\ NI d (r_steps st) /\ LI d (r_steps st) /\ AI d (r_acc st).
 Proof.
   intros Hmono Hwalk Hknown Hminw Hpre Hscan.
   unfold rev_scan in Hscan. destruct (rev_entry (k_set k) (hour_of (k_arr k) + 1)) as [i|]; [|discriminate].
-  rewrite (rp_set _ _ _ _ _ _ Hpre) in Hscan. inversion Hscan as [Hst]. clear Hscan.
+  rewrite (rc_set _ _ _ Hpre) in Hscan. inversion Hscan as [Hst]. clear Hscan.
   set (L := skipn i (cs_rev (conn_set d s))).
   assert (HG : forall c, In c L -> In c (all_conns d)).
   { intros c Hc. subst L. apply in_skipn in Hc. apply cs_rev_in in Hc. exact (proj1 Hc). }
   assert (HS : StronglySorted seq_desc L).
   { subst L. apply StronglySorted_skipn. apply cs_rev_seq_sorted_mono. exact Hmono. }
   assert (H0 : SInv d L (rev_init k)).
-  { unfold SInv, rev_init. cbn [r_taur r_steps r_acc r_ov]. split; [|split].
-    - intros t e He. rewrite (rp_exit _ _ _ _ _ _ Hpre) in He. discriminate.
-    - intros c' e _ He. rewrite (rp_exit _ _ _ _ _ _ Hpre) in He. discriminate.
-    - intros n b Hb. rewrite (rp_steps _ _ _ _ _ _ Hpre), seed_steps_enter in Hb. discriminate. }
+  { unfold SInv, rev_init. cbn [r_taur r_steps r_acc r_ov]. split; [|split; [|split; [|split]]].
+    - intros t e He. rewrite (rc_exit _ _ _ Hpre) in He. discriminate.
+    - intros c' e _ He. rewrite (rc_exit _ _ _ Hpre) in He. discriminate.
+    - intros n b Hb. rewrite (rc_steps _ _ _ Hpre) in Hb. discriminate.
+    - intros n b Hb. rewrite (rc_steps _ _ _ Hpre) in Hb. discriminate.
+    - intros n j Hj. discriminate. }
   assert (T0 : TInv 0 (rev_init k)).
   { exists (fun _ => 0%nat). unfold rev_init. cbn [r_taur r_steps].
-    constructor; intros n b; rewrite (rp_steps _ _ _ _ _ _ Hpre), seed_steps_enter; discriminate. }
-  destruct (scan_sinv d p k Hmono Hwalk Hknown Hminw L (rev_init k) 0%nat HG HS H0 T0) as (t' & (_ & _ & HN) & (stamp & HT)).
-  split; [exists t', stamp; exact HT|exact HN].
+    constructor; intros n b; rewrite (rc_steps _ _ _ Hpre); discriminate. }
+  destruct (scan_sinv d p k Hmono Hwalk Hknown Hminw L (rev_init k) 0%nat HG HS H0 T0)
+    as (t' & (_ & _ & HN & HL & HA) & (stamp & HT)).
+  split; [exists t', stamp; exact HT|]. split; [exact HN|]. split; [exact HL|exact HA].
+Qed.
+
+Lemma rev_scan_tinv_mono d s p acc egr k st :
+  times_monotone d -> walks_nonneg d -> rfp_nodes_known d -> 0 <= q_minw p -> rev_pre d s p acc egr k ->
+  rev_scan d p k false = Ok st ->
+  (exists t stamp, TI t (r_taur st) (r_steps st) stamp) /\ NI d (r_steps st).
+Proof.
+  intros Hmono Hwalk Hknown Hminw Hpre Hscan.
+  destruct (rev_scan_chain d s p k st Hmono Hwalk Hknown Hminw (rev_pre_chain_of d s p acc egr k Hpre) Hscan)
+    as (HT & HN & _). split; assumption.
 Qed.
 
 Lemma rev_scan_tinv d s p acc egr k st :
